@@ -9,12 +9,33 @@ from gen import Quant
 REGISTRY = {}
 
 
+def norm_type(t):
+    t = t.replace('const ', '').replace('&', '').replace('SplineTrajectory::', '').strip()
+    t = t.replace('std::vector<double>', 'vector').replace('PPolyND::', '')
+    return t.replace(' ', '')
+
+
+def sig_of(method_node):
+    return tuple(norm_type(c['type']['qualType']) for c in method_node.get('inner', []) if c.get('kind') == 'ParmVarDecl')
+
+
+def sig_pred(sig):
+    return lambda m: sig_of(m) == tuple(sig)
+
+
 class Contract(object):
     key = None          # 'Class.method'
     nparams = None      # number of parameters of the overload this contract is for (None = any)
 
+    sig = None          # optional tuple of parameter type strings (normalised) to select one overload
+
     def applies(self, method_node, nparams):
+        if self.sig is not None:
+            return sig_of(method_node) == tuple(self.sig)
         return self.nparams is None or self.nparams == nparams
+
+    def select(self, method_node, nparams):
+        return self if self.applies(method_node, nparams) else None
 
     def spec(self, S):
         raise NotImplementedError
@@ -49,8 +70,11 @@ class Multi(object):
         self.key = lst[0].key
 
     def applies(self, m, nparams):
-        self._sel = [c for c in self.lst if c.applies(m, nparams)]
-        return len(self._sel) == 1
+        return len([c for c in self.lst if c.applies(m, nparams)]) == 1
+
+    def select(self, m, nparams):
+        sel = [c for c in self.lst if c.applies(m, nparams)]
+        return sel[0] if len(sel) == 1 else None
 
     def spec(self, S):
-        return self._sel[0].spec(S)
+        raise RuntimeError('overloaded contract set must be resolved with select()')
